@@ -266,10 +266,10 @@ int main() {
         } else if( cmd == "fl" ) {
             std::string sub, v;
             ls >> sub >> v;
-            if( sub == "g15" ) {
+            if( sub == "g15" || sub == "g16" || sub == "g17" ) {
                 unsigned long long u = strtoull( v.c_str(), 0, 16 ); double d; memcpy( &d, &u, 8 );
                 char b[128];
-                sprintf( b, "%.15G", d );
+                sprintf( b, "%.*G", atoi( sub.c_str() + 1 ), d );
                 std::cout << "F " << hex( b ) << "\n";
             } else if( sub == "parse" ) {
                 std::string t;
